@@ -11,6 +11,8 @@ import (
 	"testing"
 
 	"github.com/dominant-strategies/go-quai/common"
+	"github.com/dominant-strategies/go-quai/core/rawdb"
+	"github.com/dominant-strategies/go-quai/core/state"
 	"github.com/dominant-strategies/go-quai/core/types"
 	"github.com/dominant-strategies/go-quai/crypto"
 	"github.com/dominant-strategies/go-quai/ethdb/memorydb"
@@ -247,7 +249,7 @@ func genVal(r *rand.Rand) []byte {
 func TestC18(t *testing.T) {
 	m := mon.New(t, "C18", "trie")
 	defer m.Finish()
-	m.Rule("random op histories (put/overwrite/delete/commit/reload/cap) over raw and secure tries with 3 key shapes; " +
+	m.Rule("random op histories (put/overwrite/delete/commit/reload/cap) over raw and secure tries with 3 key shapes; copy histories: an uncommitted secure trie is copied (SecureTrie.Copy / state.Database.CopyTrie) and both instances continue with their own puts and deletes, each must keep matching its own content map (reference root, every Get, proofs); " +
 		"distinct = distinct (mode, final content map, history) digests; non-trivial = the oracle compared a root, a proof or a list hash")
 	m.Assume("keccak256 and rlp of /repo are trusted for the independent reference root",
 		"a 'proof' is a list of nodes keyed by their own keccak hash (as eth_getProof consumers build it)")
@@ -271,13 +273,19 @@ func TestC18(t *testing.T) {
 		}
 	}
 
+	nCopy := m.N(600, 24000)
+	rc := m.Rand("copies")
+	for h := 0; h < nCopy && m.Violations() <= 20; h++ {
+		runCopyHistory(m, rc, logger, h)
+	}
+
 	nList := m.N(1200, 40000)
 	rl := m.Rand("lists")
 	for i := 0; i < nList; i++ {
 		runList(m, rl, i)
 	}
 	m.Floor(int64(nHist), 10)
-	m.Need("root:raw", "root:secure", "reload", "proof:present", "proof:absent", "proof:bitflip", "stacktrie", "range:ok", "range:tampered")
+	m.Need("copy:both-diverged", "copy:delete-in-copy", "copy:delete-in-original", "root:raw", "root:secure", "reload", "proof:present", "proof:absent", "proof:bitflip", "stacktrie", "range:ok", "range:tampered")
 }
 
 type histWitness struct {
@@ -701,4 +709,171 @@ func runList(m *mon.M, r *rand.Rand, idx int) {
 	if idx < 2 {
 		m.Sample(map[string]any{"list_len": n, "root": hs.Hex()})
 	}
+}
+
+
+// ---------------------------------------------------------------- copies
+
+type copyWitness struct {
+	Case    int    `json:"case"`
+	Via     string `json:"via"`
+	Prefix  []op   `json:"prefix"`
+	Diverge []op   `json:"diverge"` // K prefixed with A: / B: for the instance
+	Note    string `json:"note"`
+}
+
+// runCopyHistory: the root and the values of a trie depend only on ITS content,
+// not on what happens to a copy taken from it (copies share nodes until modified).
+func runCopyHistory(m *mon.M, r *rand.Rand, logger *log.Logger, idx int) {
+	disk := memorydb.New(logger)
+	var a, b state.Trie
+	var sdb state.Database
+	via := "SecureTrie.Copy"
+	if r.Intn(2) == 0 {
+		via = "state.Database.CopyTrie"
+		sdb = state.NewDatabase(rawdb.NewDatabase(disk))
+		t, err := sdb.OpenTrie(common.Hash{})
+		if err != nil {
+			m.Inconclusive("OpenTrie: " + err.Error())
+			return
+		}
+		a = t
+	} else {
+		t, _ := trie.NewSecure(common.Hash{}, trie.NewDatabase(disk))
+		a = t
+	}
+	contentA := map[string][]byte{}
+	var pool [][]byte
+	var prefix, diverge []op
+	wit := func(note string) any { return copyWitness{idx, via, prefix, diverge, note} }
+	// many short keys: hashed keys then share nibbles often enough for extensions over small branches
+	newKey := func() []byte {
+		if len(pool) > 0 && r.Intn(3) == 0 {
+			return pool[r.Intn(len(pool))]
+		}
+		k := make([]byte, 1+r.Intn(3))
+		r.Read(k)
+		pool = append(pool, k)
+		return k
+	}
+	nPre := 2 + r.Intn(60)
+	for i := 0; i < nPre; i++ {
+		k, v := newKey(), genVal(r)
+		if r.Intn(6) == 0 && len(contentA) > 0 {
+			prefix = append(prefix, op{Kind: "del", K: mon.Hex(k)})
+			a.TryDelete(k)
+			delete(contentA, string(k))
+			continue
+		}
+		prefix = append(prefix, op{"put", mon.Hex(k), mon.Hex(v)})
+		a.TryUpdate(k, v)
+		contentA[string(k)] = v
+	}
+	switch r.Intn(3) {
+	case 0:
+		prefix = append(prefix, op{Kind: "hash"})
+		a.Hash()
+	case 1:
+		prefix = append(prefix, op{Kind: "commit"})
+		a.Commit(nil)
+	}
+	if sdb != nil {
+		b = sdb.CopyTrie(a)
+	} else {
+		b = a.(*trie.SecureTrie).Copy()
+	}
+	contentB := map[string][]byte{}
+	for k, v := range contentA {
+		contentB[k] = v
+	}
+	delA, delB := 0, 0
+	nDiv := 1 + r.Intn(30)
+	mode := r.Intn(3) // 0: only the copy changes, 1: only the original changes, 2: both
+	for i := 0; i < nDiv; i++ {
+		onB := mode == 0 || (mode == 2 && r.Intn(2) == 0)
+		t, content, tag := a, contentA, "A:"
+		if onB {
+			t, content, tag = b, contentB, "B:"
+		}
+		if r.Intn(2) == 0 && len(content) > 0 {
+			// delete a key the instance holds (recently inserted keys first: they sit next to split points)
+			var k []byte
+			for tries := 0; tries < 8 && k == nil; tries++ {
+				c := pool[len(pool)-1-r.Intn(minInt(len(pool), 1+tries*4))]
+				if _, ok := content[string(c)]; ok {
+					k = c
+				}
+			}
+			if k == nil {
+				continue
+			}
+			diverge = append(diverge, op{Kind: "del", K: tag + mon.Hex(k)})
+			t.TryDelete(k)
+			delete(content, string(k))
+			if onB {
+				delB++
+			} else {
+				delA++
+			}
+		} else {
+			k, v := newKey(), genVal(r)
+			diverge = append(diverge, op{"put", tag + mon.Hex(k), mon.Hex(v)})
+			t.TryUpdate(k, v)
+			content[string(k)] = v
+		}
+	}
+	for _, side := range []struct {
+		name    string
+		t       state.Trie
+		content map[string][]byte
+	}{{"original", a, contentA}, {"copy", b, contentB}} {
+		for k, v := range side.content {
+			got, err := side.t.TryGet([]byte(k))
+			if err != nil || !bytes.Equal(got, v) {
+				m.Violation("copy:get-differs-from-own-content:"+side.name, fmt.Sprintf("%s (%s): key %x: got %x err %v, own content has %x", side.name, via, k, got, err, v), wit("get"))
+				return
+			}
+		}
+		if got, want := side.t.Hash(), refRoot(side.content, true); got != want {
+			m.Violation("copy:root-differs-from-own-content:"+side.name, fmt.Sprintf("%s (%s): Hash()=%x, reference root of its own %d entries=%x", side.name, via, got, len(side.content), want), wit("root"))
+			return
+		}
+		// a proof for a present key must yield the stored value
+		if len(side.content) > 0 {
+			keys := make([]string, 0, len(side.content))
+			for k := range side.content {
+				keys = append(keys, k)
+			}
+			sort.Strings(keys)
+			k := []byte(keys[r.Intn(len(keys))])
+			pdb := memorydb.New(logger)
+			if err := side.t.Prove(crypto.Keccak256(k), 0, pdb); err != nil {
+				m.Violation("copy:prove-error:"+side.name, err.Error(), wit("prove"))
+				return
+			}
+			val, err := trie.VerifyProof(side.t.Hash(), crypto.Keccak256(k), pdb)
+			if err != nil || !bytes.Equal(val, side.content[string(k)]) {
+				m.Violation("copy:proof-does-not-yield-stored-value:"+side.name, fmt.Sprintf("%s (%s): key %x: VerifyProof=%x err=%v, stored=%x", side.name, via, k, val, err, side.content[string(k)]), wit("verify"))
+				return
+			}
+		}
+	}
+	dk := fmt.Sprintf("%x/%x/%d", refRoot(contentA, true), refRoot(contentB, true), len(diverge))
+	switch {
+	case delB > 0 && mode == 0:
+		m.Eval("copy:delete-in-copy", dk)
+	case delA > 0 && mode == 1:
+		m.Eval("copy:delete-in-original", dk)
+	case mode == 2:
+		m.Eval("copy:both-diverged", dk)
+	default:
+		m.Eval("copy:puts-only", dk)
+	}
+}
+
+func minInt(a, b int) int {
+	if a < b {
+		return a
+	}
+	return b
 }
